@@ -72,10 +72,11 @@ theorem stages_iff_structureOk (hU : U.WF) (hT : T.WF) {c : Str} (hc : Compact U
         numLen (c.drop 4 ++ c.take 4) ≤ U.maxIntDigits) ↔ structureOk T c = true := by
   have ⟨heT, hcode⟩ := Table.lookup_mem hl
   have hW := hT e heT
-  obtain ⟨l, hps, hpat', hexp⟩ := hW.spec
+  obtain ⟨l, items', hps, hpat', hmatch, hexp⟩ := hW.spec
   rw [hpat'] at hpat
-  have hitems : items = l.map itemOf := (Option.some.inj hpat).symm
+  have hitems : items = items' := (Option.some.inj hpat).symm
   subst hitems
+  rw [hmatch]
   obtain ⟨a, b, d1, d2, rest, rfl⟩ := list_ge4 (prefixOk_length hp)
   have hrestC : Compact U rest := fun x hx => hc x (by simp [hx])
   simp only [prefixOk, Bool.and_eq_true] at hp
@@ -156,11 +157,11 @@ theorem tree_err_sound (hU : U.WF) (hT : T.WF) {c : Str} (hc : Compact U c) {k :
       have hW := hT e (Table.lookup_mem hl).1
       by_cases hlen : e.ibanLength = c.length
       · simp only [hlen, ne_eq, not_true_eq_false, ↓reduceIte] at h
-        obtain ⟨l, _, hpat, _⟩ := hW.spec
+        obtain ⟨l, items, _, hpat, _, _⟩ := hW.spec
         rw [hpat] at h
         simp only at h
         have hst := stages_iff_structureOk hU hT hc hp hl hlen hpat
-        cases hm : matchItems U (l.map itemOf) (c.drop 4) with
+        cases hm : matchItems U items (c.drop 4) with
         | false =>
           simp only [hm, ↓reduceIte, Res.err.injEq] at h
           subst h
